@@ -108,7 +108,11 @@ fn enum_from(
             fn from_str(
                 src: &derive_more::core::primitive::str,
             ) -> derive_more::core::result::Result<Self, derive_more::FromStrError> {
-                derive_more::core::result::Result::Ok(match derive_more::__private::to_lowercase(src).as_str() {
+                // `str::to_lowercase()` lives in `alloc`, which a `no_std` crate doesn't necessarily
+                // link itself (and `derive_more` doesn't either: a final `no_std` artifact not
+                // deriving this would need a global allocator for nothing).
+                extern crate alloc as __derive_more_alloc;
+                derive_more::core::result::Result::Ok(match derive_more::core::primitive::str::to_lowercase(src).as_str() {
                     #(#cases)*
                     _ => return derive_more::core::result::Result::Err(
                         derive_more::FromStrError::new(#input_type_name),
